@@ -349,7 +349,7 @@ Lemma err_attrs_type code ty :
 Proof. destruct (code =? 0)%Z; destruct ty; reflexivity. Qed.
 
 Lemma err_children code ty reason text :
-  (isempty reason || (name_ok reason && negb (str_eqb reason s_text) && negb (str_eqb reason s_gone))) = true ->
+  (isempty reason || (name_ok reason && negb (str_eqb reason s_text))) = true ->
   fold_left err_child
     ((match reason with [] => [] | rc :: rr => [XE ns_stanzas (rc :: rr) [] []] end)
      ++ (match text with [] => [] | tc :: tx => [XE ns_stanzas s_text [] (text_raw (tc :: tx))] end))
@@ -361,12 +361,15 @@ Proof.
   { intros e. cbn [err_child]. rewrite texts_text_raw. reflexivity. }
   destruct reason as [|rc rr].
   - destruct text as [|tc tx]; [reflexivity|]. cbn [app fold_left]. now rewrite Htext.
-  - cbn [isempty orb] in Hr. apply andb_true_iff in Hr as [Hr Hg]. apply andb_true_iff in Hr as [_ Ht].
-    apply negb_true_iff in Ht, Hg.
-    assert (Hreason : forall e, err_child e (XE ns_stanzas (rc :: rr) [] [])
+  - cbn [isempty orb] in Hr. apply andb_true_iff in Hr as [_ Ht].
+    apply negb_true_iff in Ht.
+    assert (Hreason : forall e, e_text e = [] ->
+                                err_child e (XE ns_stanzas (rc :: rr) [] [])
                                 = mkErr (e_code e) (e_type e) (rc :: rr) (e_text e)).
-    { intros e. cbn [err_child]. rewrite Ht, Hg. reflexivity. }
-    destruct text as [|tc tx]; cbn [app fold_left]; rewrite Hreason; [reflexivity|].
+    { intros e He. cbn [err_child]. rewrite Ht.
+      destruct (str_eqb (rc :: rr) s_gone); [|reflexivity].
+      rewrite str_eqb_refl. cbn [andb]. rewrite He. reflexivity. }
+    destruct text as [|tc tx]; cbn [app fold_left]; rewrite Hreason by reflexivity; [reflexivity|].
     now rewrite Htext.
 Qed.
 
@@ -414,7 +417,7 @@ Proof.
              ++ (match text with [] => [] | tc :: tx => [XE ns_stanzas s_text [] (text_raw (tc :: tx))] end)) = true).
   { rewrite forallb_app. apply andb_true_iff. split.
     - destruct reason as [|rc rr]; [reflexivity|]. cbn [isempty orb] in H0.
-      apply andb_true_iff in H0 as [H0 _]. apply andb_true_iff in H0 as [H0 _].
+      apply andb_true_iff in H0 as [H0 _].
       cbn [forallb]. rewrite wf_tree_XE, H0. reflexivity.
     - destruct text as [|tc tx]; [reflexivity|]. cbn [forallb]. rewrite wf_tree_XE.
       rewrite (wf_text_raw ns_stanzas (tc :: tx) H1). reflexivity. }
@@ -451,7 +454,7 @@ Qed.
 
 Lemma msg_step_subject reg m s :
   reg_ok reg = true ->
-  msg_child reg (Some m) (XE [] s_subject [] [XT false s])
+  msg_child reg [] (Some m) (XE [] s_subject [] [XT false s])
   = Some (mkMessage (m_attrs m) s (m_body m) (m_thread m) (m_error m) (m_exts m)).
 Proof.
   intros H. destruct (reg_ok_parts reg H) as (H1 & _). cbn [msg_child]. rewrite H1.
@@ -459,7 +462,7 @@ Proof.
 Qed.
 Lemma msg_step_body reg m s :
   reg_ok reg = true ->
-  msg_child reg (Some m) (XE [] s_body [] [XT false s])
+  msg_child reg [] (Some m) (XE [] s_body [] [XT false s])
   = Some (mkMessage (m_attrs m) (m_subject m) s (m_thread m) (m_error m) (m_exts m)).
 Proof.
   intros H. destruct (reg_ok_parts reg H) as (_ & H1 & _). cbn [msg_child]. rewrite H1.
@@ -467,7 +470,7 @@ Proof.
 Qed.
 Lemma msg_step_thread reg m s :
   reg_ok reg = true ->
-  msg_child reg (Some m) (XE [] s_thread [] [XT false s])
+  msg_child reg [] (Some m) (XE [] s_thread [] [XT false s])
   = Some (mkMessage (m_attrs m) (m_subject m) (m_body m) s (m_error m) (m_exts m)).
 Proof.
   intros H. destruct (reg_ok_parts reg H) as (_ & _ & H1 & _). cbn [msg_child]. rewrite H1.
@@ -476,12 +479,13 @@ Qed.
 
 Lemma msg_seg_error reg a s b t x e :
   reg_ok reg = true -> wf_err e = true ->
-  fold_left (msg_child reg) (enc_err e) (Some (mkMessage a s b t zero_err x))
+  fold_left (msg_child reg []) (enc_err e) (Some (mkMessage a s b t zero_err x))
   = Some (mkMessage a s b t e x).
 Proof.
   intros H He. destruct (reg_ok_parts reg H) as (_ & _ & _ & H1 & _).
   destruct (enc_err_cases e) as [(_ & -> & ->)|(_ & ->)]; [reflexivity|].
   cbn [fold_left]. unfold err_tree at 1. cbn [msg_child]. rewrite H1.
+  change (negb (str_eqb [] [])) with false. cbv iota.
   change (str_eqb s_error s_body) with false. change (str_eqb s_error s_thread) with false.
   change (str_eqb s_error s_subject) with false. change (str_eqb s_error s_error) with true.
   cbv iota. cbn [m_error]. fold (err_tree e). now rewrite (dec_err_tree e He).
@@ -489,7 +493,7 @@ Qed.
 
 Lemma msg_seg_exts reg a s b t e exts : forall x0,
   forallb (root_registered reg 1) exts = true ->
-  fold_left (msg_child reg) exts (Some (mkMessage a s b t e x0))
+  fold_left (msg_child reg []) exts (Some (mkMessage a s b t e x0))
   = Some (mkMessage a s b t e (x0 ++ exts)).
 Proof.
   induction exts as [|k ks IH]; intros x0 H; [now rewrite app_nil_r|].
@@ -519,15 +523,15 @@ Proof.
   destruct (wf_ext_parts reg 1 ex H) as (Hr & _ & _).
   unfold enc_message, dec_message. cbn [m_attrs m_subject m_body m_thread m_error m_exts].
   rewrite dec_enc_attrs, !fold_left_app.
-  assert (S1 : fold_left (msg_child reg) (opt_elem s_subject su) (Some (mkMessage a [] [] [] zero_err []))
+  assert (S1 : fold_left (msg_child reg []) (opt_elem s_subject su) (Some (mkMessage a [] [] [] zero_err []))
                = Some (mkMessage a su [] [] zero_err [])).
   { destruct su; [reflexivity|]. cbn [opt_elem fold_left]. now rewrite msg_step_subject. }
   rewrite S1.
-  assert (S2 : fold_left (msg_child reg) (opt_elem s_body bo) (Some (mkMessage a su [] [] zero_err []))
+  assert (S2 : fold_left (msg_child reg []) (opt_elem s_body bo) (Some (mkMessage a su [] [] zero_err []))
                = Some (mkMessage a su bo [] zero_err [])).
   { destruct bo; [reflexivity|]. cbn [opt_elem fold_left]. now rewrite msg_step_body. }
   rewrite S2.
-  assert (S3 : fold_left (msg_child reg) (opt_elem s_thread th) (Some (mkMessage a su bo [] zero_err []))
+  assert (S3 : fold_left (msg_child reg []) (opt_elem s_thread th) (Some (mkMessage a su bo [] zero_err []))
                = Some (mkMessage a su bo th zero_err [])).
   { destruct th; [reflexivity|]. cbn [opt_elem fold_left]. now rewrite msg_step_thread. }
   rewrite S3, (msg_seg_error reg a su bo th [] e Hreg H0), (msg_seg_exts reg a su bo th e ex [] Hr).
@@ -537,7 +541,7 @@ Qed.
 (* ---- presence ---- *)
 Lemma pres_step_show reg p s :
   reg_ok reg = true ->
-  pres_child reg (Some p) (XE [] s_show [] [XT false s])
+  pres_child reg [] (Some p) (XE [] s_show [] [XT false s])
   = Some (mkPresence (p_attrs p) s (p_status p) (p_priority p) (p_error p) (p_exts p)).
 Proof.
   intros H. destruct (reg_ok_parts reg H) as (_ & _ & _ & _ & H1 & _). cbn [pres_child]. rewrite H1.
@@ -545,7 +549,7 @@ Proof.
 Qed.
 Lemma pres_step_status reg p s :
   reg_ok reg = true ->
-  pres_child reg (Some p) (XE [] s_status [] [XT false s])
+  pres_child reg [] (Some p) (XE [] s_status [] [XT false s])
   = Some (mkPresence (p_attrs p) (p_show p) s (p_priority p) (p_error p) (p_exts p)).
 Proof.
   intros H. destruct (reg_ok_parts reg H) as (_ & _ & _ & _ & _ & H1 & _). cbn [pres_child]. rewrite H1.
@@ -555,11 +559,12 @@ Lemma Z7 : Z.of_N (2 ^ (8 - 1)) = 128%Z.
 Proof. reflexivity. Qed.
 Lemma pres_step_priority reg p z :
   reg_ok reg = true -> (-128 <= z <= 127)%Z ->
-  pres_child reg (Some p) (XE [] s_priority [] [XT false (itoa z)])
+  pres_child reg [] (Some p) (XE [] s_priority [] [XT false (itoa z)])
   = Some (mkPresence (p_attrs p) (p_show p) (p_status p) z (p_error p) (p_exts p)).
 Proof.
   intros H Hz. destruct (reg_ok_parts reg H) as (_ & _ & _ & _ & _ & _ & H1 & _).
   cbn [pres_child]. rewrite H1.
+  change (negb (str_eqb [] [])) with false. cbv iota.
   change (str_eqb s_priority s_show) with false. change (str_eqb s_priority s_status) with false.
   change (str_eqb s_priority s_priority) with true. cbv iota.
   cbn [texts flat_map]. rewrite app_nil_r.
@@ -568,12 +573,13 @@ Qed.
 
 Lemma pres_seg_error reg a s b z x e :
   reg_ok reg = true -> wf_err e = true ->
-  fold_left (pres_child reg) (enc_err e) (Some (mkPresence a s b z zero_err x))
+  fold_left (pres_child reg []) (enc_err e) (Some (mkPresence a s b z zero_err x))
   = Some (mkPresence a s b z e x).
 Proof.
   intros H He. destruct (reg_ok_parts reg H) as (_ & _ & _ & _ & _ & _ & _ & H1).
   destruct (enc_err_cases e) as [(_ & -> & ->)|(_ & ->)]; [reflexivity|].
   cbn [fold_left]. unfold err_tree at 1. cbn [pres_child]. rewrite H1.
+  change (negb (str_eqb [] [])) with false. cbv iota.
   change (str_eqb s_error s_show) with false. change (str_eqb s_error s_status) with false.
   change (str_eqb s_error s_priority) with false. change (str_eqb s_error s_error) with true.
   cbv iota. cbn [p_error]. fold (err_tree e). now rewrite (dec_err_tree e He).
@@ -581,7 +587,7 @@ Qed.
 
 Lemma pres_seg_exts reg a s b z e exts : forall x0,
   forallb (root_registered reg 0) exts = true ->
-  fold_left (pres_child reg) exts (Some (mkPresence a s b z e x0))
+  fold_left (pres_child reg []) exts (Some (mkPresence a s b z e x0))
   = Some (mkPresence a s b z e (x0 ++ exts)).
 Proof.
   induction exts as [|k ks IH]; intros x0 H; [now rewrite app_nil_r|].
@@ -602,15 +608,15 @@ Proof.
   destruct (wf_ext_parts reg 0 ex H) as (Hr & _ & _).
   unfold enc_presence, dec_presence. cbn [p_attrs p_show p_status p_priority p_error p_exts].
   rewrite dec_enc_attrs, !fold_left_app.
-  assert (S1 : fold_left (pres_child reg) (opt_elem s_show sh) (Some (mkPresence a [] [] 0%Z zero_err []))
+  assert (S1 : fold_left (pres_child reg []) (opt_elem s_show sh) (Some (mkPresence a [] [] 0%Z zero_err []))
                = Some (mkPresence a sh [] 0%Z zero_err [])).
   { destruct sh; [reflexivity|]. cbn [opt_elem fold_left]. now rewrite pres_step_show. }
   rewrite S1.
-  assert (S2 : fold_left (pres_child reg) (opt_elem s_status st) (Some (mkPresence a sh [] 0%Z zero_err []))
+  assert (S2 : fold_left (pres_child reg []) (opt_elem s_status st) (Some (mkPresence a sh [] 0%Z zero_err []))
                = Some (mkPresence a sh st 0%Z zero_err [])).
   { destruct st; [reflexivity|]. cbn [opt_elem fold_left]. now rewrite pres_step_status. }
   rewrite S2.
-  assert (S3 : fold_left (pres_child reg)
+  assert (S3 : fold_left (pres_child reg [])
                  (if (pr =? 0)%Z then [] else [XE [] s_priority [] [XT false (itoa pr)]])
                  (Some (mkPresence a sh st 0%Z zero_err []))
                = Some (mkPresence a sh st pr zero_err [])).
@@ -628,21 +634,21 @@ Proof.
   repeat (apply andb_true_iff in Hwf as [Hwf ?]).
   unfold enc_iq, dec_iq. cbn [i_attrs i_payload i_error i_any].
   rewrite dec_enc_attrs, !fold_left_app.
-  assert (S1 : fold_left (iq_child reg) (opt_list pl (fun t => [t])) (Some (mkIQ a None None None))
+  assert (S1 : fold_left (iq_child reg []) (opt_list pl (fun t => [t])) (Some (mkIQ a None None None))
                = Some (mkIQ a pl None None)).
   { destruct pl as [t|]; [|reflexivity]. apply andb_true_iff in H1 as [Hx Hn].
     unfold wf_ext in Hx. apply andb_true_iff in Hx as [_ Hr].
     destruct t as [ns l ta tk|raw tx]; [|discriminate].
-    cbn [root_registered] in Hr. cbn [root_local_is] in Hn. apply negb_true_iff in Hn.
+    cbn [root_registered] in Hr. cbn [root_is] in Hn. apply negb_true_iff in Hn.
     cbn [opt_list fold_left iq_child]. now rewrite Hn, Hr. }
   rewrite S1.
-  assert (S2 : fold_left (iq_child reg) (opt_list er enc_err) (Some (mkIQ a pl None None))
+  assert (S2 : fold_left (iq_child reg []) (opt_list er enc_err) (Some (mkIQ a pl None None))
                = Some (mkIQ a pl er None)).
   { destruct er as [e|]; [|reflexivity]. apply andb_true_iff in H0 as [He Hne].
     apply negb_true_iff in Hne. cbn [opt_list].
     destruct (enc_err_cases e) as [(Hc & _)|(_ & ->)]; [congruence|].
     cbn [fold_left]. unfold err_tree at 1. cbn [iq_child].
-    change (str_eqb s_error s_error) with true. cbv iota. fold (err_tree e).
+    change (str_eqb s_error s_error && str_eqb [] []) with true. cbv iota. fold (err_tree e).
     now rewrite (dec_err_tree e He). }
   rewrite S2.
   destruct an as [n|]; [|reflexivity].
@@ -656,8 +662,14 @@ Qed.
 Lemma fits64_lt n : fits64 n = true -> n < 2 ^ 64.
 Proof. unfold fits64. apply N.ltb_lt. Qed.
 
-Lemma inner_text_esc s : plain s = true -> inner (text_esc s) = Some s.
-Proof. intros H. destruct s as [|c s]; [reflexivity|]. cbn [text_esc inner]. now rewrite H. Qed.
+Lemma failed_conditions_names : forallb name_ok failed_conditions = true.
+Proof. reflexivity. Qed.
+
+Lemma failed_condition_name c : existsb (str_eqb c) failed_conditions = true -> name_ok c = true.
+Proof.
+  intros H. apply existsb_exists in H as (x & Hin & Hx). apply str_eqb_eq in Hx. subst x.
+  pose proof failed_conditions_names as Hn. rewrite forallb_forall in Hn. now apply Hn.
+Qed.
 
 Theorem dec_enc reg v :
   reg_ok reg = true -> wf_value reg v = true -> dec reg (vtype_of v) (enc v) = Some v.
@@ -684,12 +696,16 @@ Proof.
   - apply andb_true_iff in Hwf as [_ Hh].
     destruct h as [n|]; cbn [opt_fits64] in Hh; try (apply fits64_lt in Hh);
       destruct previd; cbn; rewrite ?parse_uint_field_utoa by assumption; reflexivity.
-  - destruct h as [n|]; [|reflexivity]. cbn [opt_fits64] in Hwf. apply fits64_lt in Hwf.
-    cbn. now rewrite parse_uint_utoa.
-  - apply andb_true_iff in Hwf as [_ Hp]. cbn [enc dec]. unfold named.
-    rewrite !str_eqb_refl. cbn [andb]. rewrite (inner_text_esc val Hp). reflexivity.
+  - apply andb_true_iff in Hwf as [Hh Hc].
+    assert (Hf : failed_h (opt_uint_attr s_h h) None = h).
+    { destruct h as [n|]; [|reflexivity]. cbn [opt_fits64] in Hh. apply fits64_lt in Hh.
+      cbn. now rewrite parse_uint_utoa. }
+    cbn [enc dec]. rewrite Hf. destruct cond as [|c0 cr]; [reflexivity|].
+    cbn [isempty orb] in Hc. cbn [fold_left failed_cond]. rewrite str_eqb_refl, Hc. reflexivity.
   - cbn [enc dec]. unfold named. rewrite !str_eqb_refl. cbn [andb].
-    now rewrite (inner_text_esc val Hwf).
+    rewrite texts_text_esc. reflexivity.
+  - cbn [enc dec]. unfold named. rewrite !str_eqb_refl. cbn [andb].
+    now rewrite texts_text_esc.
 Qed.
 
 (* ---- enc of a well-formed value is a well-formed document ---- *)
@@ -779,15 +795,18 @@ Proof.
   - apply andb_true_iff in Hwf as [Hp _].
     unfold wf_doc. cbn [is_elem is_text negb andb]. rewrite wf_tree_XE.
     rewrite forallb_app, attr_ok_opt, attr_ok_opt_uint by (auto; reflexivity). reflexivity.
-  - unfold wf_doc. cbn [is_elem is_text negb andb]. rewrite wf_tree_XE.
-    rewrite attr_ok_opt_uint by reflexivity. reflexivity.
+  - apply andb_true_iff in Hwf as [_ Hc].
+    unfold wf_doc. cbn [is_elem is_text negb andb]. rewrite wf_tree_XE.
+    rewrite attr_ok_opt_uint by reflexivity.
+    destruct cond as [|c0 cr]; [reflexivity|]. cbn [isempty orb] in Hc.
+    cbn [forallb]. rewrite wf_tree_XE, (failed_condition_name _ Hc). reflexivity.
   - apply andb_true_iff in Hwf as [Hm Hp].
     unfold wf_doc. cbn [is_elem is_text negb andb]. rewrite wf_tree_XE.
-    rewrite (wf_text_esc _ val (plain_all_legal val Hp)).
+    rewrite (wf_text_esc _ val Hp).
     cbn [forallb]. unfold attr_ok at 1. cbn [fst snd]. rewrite Hm.
     destruct val; reflexivity.
   - unfold wf_doc. cbn [is_elem is_text negb andb]. rewrite wf_tree_XE.
-    rewrite (wf_text_esc _ val (plain_all_legal val Hwf)). destruct val; reflexivity.
+    rewrite (wf_text_esc _ val Hwf). destruct val; reflexivity.
 Qed.
 
 (* ---- skeletons do not look at text ---- *)
